@@ -82,13 +82,13 @@ def kv(line):
 
 def run(rep, tier, rng):
     depth = 2 if tier == "quick" else 3
-    big = 3000 if tier == "quick" else 100000
+    big = 3000 if tier == "quick" else 20000
     names = list(CONTEXTS)
     combos = [()] + [(a,) for a in names] + list(itertools.product(names, repeat=2))
     if depth >= 3:
         triples = list(itertools.product(names, repeat=3))
         rng.shuffle(triples)
-        combos += triples[:600]
+        combos += triples[:150]
     if tier == "quick":
         # all single contexts x all shapes; pairs sampled
         singles = [c for c in combos if len(c) <= 1]
